@@ -314,16 +314,18 @@ var storageMixes = map[string]storageMix{
 }
 
 type storageGen struct {
-	c       *Chain
-	r       *rand.Rand
-	users   []string
-	data    map[string]*dataFile // merkle hex -> content
-	mix     storageMix
-	ips     []string
-	blocks  int
-	lastBuy *sttypes.MsgBuyStorage
-	burst   int // how many more equal purchases follow at once (three and more deposits into one gauge id)
-	noBlock int // steps during which no block boundary is taken (so that a burst stays in one block)
+	c         *Chain
+	r         *rand.Rand
+	users     []string
+	data      map[string]*dataFile // merkle hex -> content
+	mix       storageMix
+	ips       []string
+	blocks    int
+	lastBuy   *sttypes.MsgBuyStorage
+	lastPost  *sttypes.MsgPostFile // the last pay-once posting and the height it was sent at
+	lastPostH int64
+	burst     int // how many more equal purchases follow at once (three and more deposits into one gauge id)
+	noBlock   int // steps during which no block boundary is taken (so that a burst stays in one block)
 }
 
 func (g *storageGen) user() string { return g.users[g.r.Intn(len(g.users))] }
@@ -432,6 +434,11 @@ func (g *storageGen) next() (sdk.Msg, map[string]interface{}, func(pre, post stS
 				g.burst, g.noBlock = 1+r.Intn(3), 5
 			}
 			days, byts, denom, ref = g.lastBuy.DurationDays, g.lastBuy.Bytes, g.lastBuy.PaymentDenom, g.lastBuy.Referral
+			if r.Intn(3) == 0 && days >= 60 && days%2 == 0 && byts > 0 && byts < 1<<40 {
+				days, byts = days/2, byts*2 // the same price over half the time: equal coins, another end — another gauge
+			} else if r.Intn(4) == 0 && days >= 30 && days < 50000 && byts >= 2_000_000_000 && byts%2_000_000_000 == 0 {
+				days, byts = days*2, byts/2
+			}
 			if a, err := c.A.RnsKeeper.Resolve(c.Ctx(), ref); err == nil {
 				refJ = a.String()
 			} else {
@@ -485,6 +492,9 @@ func (g *storageGen) next() (sdk.Msg, map[string]interface{}, func(pre, post stS
 				// transaction fails), and far beyond it
 				expires = c.H + []int64{7900, 7960, 7970, 7975, 7980, 8100, 300_000, 1_000_000}[r.Intn(8)]*365*14400 + int64(r.Intn(14400*300))
 			}
+			if r.Intn(8) == 0 { // a positive Expires that is not in the future: pay-once for less than a day, refused
+				expires = []int64{1, 2, c.H, c.H - 1, c.H/2 + 1}[r.Intn(5)]
+			}
 		} else if r.Intn(8) == 0 {
 			expires = -int64(1 + r.Intn(5)) // non-positive Expires is plan-paid
 		}
@@ -503,7 +513,17 @@ func (g *storageGen) next() (sdk.Msg, map[string]interface{}, func(pre, post stS
 				expires, size, maxProofs = f.Expires, f.FileSize, f.MaxProofs
 			}
 		}
+		if g.lastPost != nil && g.lastPostH == c.H && r.Intn(2) == 0 {
+			// another account pays once for a file of the same size and term in the same block: the same
+			// provider share until the same end — one gauge id, several deposits
+			size, maxProofs, expires = g.lastPost.FileSize, g.lastPost.MaxProofs, g.lastPost.Expires
+		} else if expires > 0 && size > 0 && r.Intn(3) == 0 {
+			g.noBlock = 4
+		}
 		msg := &sttypes.MsgPostFile{Creator: creator, Merkle: merkle, FileSize: size, ProofType: 0, MaxProofs: maxProofs, Expires: expires, Note: note}
+		if expires > c.H {
+			g.lastPost, g.lastPostH = msg, c.H
+		}
 		op := map[string]interface{}{"postFile": map[string]interface{}{"creator": creator, "merkle": hex.EncodeToString(merkle), "fileSize": size, "maxProofs": maxProofs, "expires": expires, "proofType": 0,
 			"note": note, "noteValid": jsonValid(note), "jklPrice": g.jklPriceRaw(), "gaugeId": "", "gaugeAcc": ""}}
 		payDays := (expires - c.H) * 6 / 60 / 60 / 24
@@ -647,9 +667,31 @@ func (g *storageGen) next() (sdk.Msg, map[string]interface{}, func(pre, post stS
 		creator := g.user()
 		atts := c.A.StorageKeeper.GetAllAttestation(c.Ctx())
 		reps := c.A.StorageKeeper.GetAllReport(c.Ctx())
+		// a form that already carries the current minimum of signatures (the minimum was lowered, or is
+		// zero): the next signature decides, so it comes from an outsider more often — or from the prover
+		quorate := func(as []*sttypes.Attestation) bool {
+			n := int64(0)
+			for _, a := range as {
+				if a.Complete {
+					n++
+				}
+			}
+			return n >= params.AttestMinToPass
+		}
+		outsider := func(as []*sttypes.Attestation, prover string) (string, bool) {
+			if !quorate(as) || r.Intn(2) == 0 {
+				return "", false
+			}
+			if r.Intn(3) == 0 {
+				return prover, true
+			}
+			return g.user(), true
+		}
 		if r.Intn(2) == 0 && len(atts) > 0 {
 			f := atts[r.Intn(len(atts))]
-			if len(f.Attestations) > 0 && r.Intn(5) > 0 {
+			if o, ok := outsider(f.Attestations, f.Prover); ok {
+				creator = o
+			} else if len(f.Attestations) > 0 && r.Intn(5) > 0 {
 				creator = f.Attestations[r.Intn(len(f.Attestations))].Provider
 				if r.Intn(3) == 0 { // somebody who has signed already signs again
 					for _, a := range f.Attestations {
@@ -664,7 +706,9 @@ func (g *storageGen) next() (sdk.Msg, map[string]interface{}, func(pre, post stS
 		}
 		if len(reps) > 0 {
 			f := reps[r.Intn(len(reps))]
-			if len(f.Attestations) > 0 && r.Intn(5) > 0 {
+			if o, ok := outsider(f.Attestations, f.Prover); ok {
+				creator = o
+			} else if len(f.Attestations) > 0 && r.Intn(5) > 0 {
 				creator = f.Attestations[r.Intn(len(f.Attestations))].Provider
 				if r.Intn(3) == 0 { // somebody who has signed already signs again
 					for _, a := range f.Attestations {
@@ -799,7 +843,21 @@ func runStorage(profile string, seed int64, histories, steps int, out *Emitter) 
 				// the way a passed param-change proposal writes it: SetParamSet with the validators)
 				pre, _ := c.storageAbs(g.users)
 				np := c.A.StorageKeeper.GetParams(c.Ctx())
-				switch r.Intn(4) {
+				nCases := 4
+				if mix.forms+mix.sign > 0 {
+					nCases = 7
+				}
+				switch r.Intn(nCases) {
+				case 4, 5: // the quorum moves while forms are collecting signatures
+					np.AttestMinToPass = int64(r.Intn(int(np.AttestFormSize) + 1))
+					if r.Intn(2) == 0 && np.AttestMinToPass > 0 {
+						np.AttestMinToPass--
+					}
+				case 6:
+					np.AttestFormSize = []int64{1, 2, 3, 4}[r.Intn(4)]
+					if np.AttestMinToPass > np.AttestFormSize {
+						np.AttestMinToPass = np.AttestFormSize
+					}
 				case 0, 1:
 					np.CollateralPrice = []int64{0, 1, 2, 3, 1000, 5000, 10_000_000_000, np.CollateralPrice * 2, np.CollateralPrice / 2}[r.Intn(9)]
 				case 2:
@@ -829,6 +887,12 @@ func runStorage(profile string, seed int64, histories, steps int, out *Emitter) 
 					if np.ReferralCommission != old.ReferralCommission {
 						ch["Referrals"] = np.ReferralCommission
 					}
+					if np.AttestMinToPass != old.AttestMinToPass {
+						ch["AttestMinToPass"] = np.AttestMinToPass
+					}
+					if np.AttestFormSize != old.AttestFormSize {
+						ch["AttestFormSize"] = np.AttestFormSize
+					}
 					// like a proposal: all changes or none
 					cctx, write := c.Ctx().CacheContext()
 					if err := c.GovSetParams(cctx, sttypes.ModuleName, ch); err != nil {
@@ -844,6 +908,7 @@ func runStorage(profile string, seed int64, histories, steps int, out *Emitter) 
 					want[k] = v
 				}
 				want["collateralPrice"], want["pricePerTbPerMonth"], want["polRatio"], want["referralCommission"] = np.CollateralPrice, np.PricePerTbPerMonth, np.PolRatio, np.ReferralCommission
+				want["attestMinToPass"], want["attestFormSize"] = np.AttestMinToPass, np.AttestFormSize
 				out.Emit(map[string]interface{}{"mod": "storage", "hist": hi, "i": i, "h": c.H, "now": c.T.UnixNano(), "pre": pre, "op": map[string]interface{}{"setParams": want}, "ok": ok, "post": post, "badKeys": bad, "users": g.users})
 				out.Count(profile+".setParams", ok)
 				continue
